@@ -1,0 +1,17 @@
+//go:build verif
+
+package gov
+
+// Accessors for the external verification harness (build tag `verif` only).
+
+// VerifCloseRest closes the store that Close leaves open (the frozen-proposal ledger), so that a
+// harness which opens many applications in one process does not keep them all.
+func (ctrler *GovCtrler) VerifCloseRest() {
+	ctrler.mtx.Lock()
+	defer ctrler.mtx.Unlock()
+
+	if ctrler.frozenLedger != nil {
+		_ = ctrler.frozenLedger.Close()
+		ctrler.frozenLedger = nil
+	}
+}
